@@ -18,7 +18,7 @@ import (
 // unchecked (DESIGN.md Appendix B says which mutant prompted which rule).
 
 func init() {
-	Register(&Rule{ID: "NODEURLPREFIX", Props: []string{"C03", "C18", "C05"}, Min: 3,
+	Register(&Rule{ID: "NODEURLPREFIX", Props: []string{"C03", "C18", "C05", "C11"}, Min: 3,
 		Doc: "every store's NodeURLPrefix identifies the container its Load/Store address: its result depends on the receiver's identity, or on every string-typed location field " +
 			"that Load/Store read (S3: BucketName and Prefix; file: the base path) — directly or through the value the constructor stored — so two stores that address different objects never share cache keys.",
 		Run: runNODEURLPREFIX})
